@@ -35,6 +35,16 @@ type Prog struct {
 	autoContracts map[string]*Contract
 	boxedCache map[*FuncInfo]map[types.Object]bool
 	opts       lowerOpts
+	lemmas     []*Clause
+	axioms     []*Clause
+	ghostFunDecls []ghostFunDecl
+	guardedBy  map[string][]string // "Type.lockField" -> fields protected by that lock
+}
+
+type ghostFunDecl struct {
+	name string
+	args []string
+	res  string
 }
 
 // lowerOpts: options of a lowering run (replay search uses unrolled loops and a concrete decoder).
@@ -92,6 +102,7 @@ func loadProg(repo string) (*Prog, error) {
 		ghostFields: map[string]map[string]string{}, repoDir: repo, chanSpecs: map[string]*ChanSpec{},
 		sentinels: map[string]bool{}, ghostFuns: map[string]*ghostFun{}, heapVarTypes: map[string]types.Type{},
 		autoContracts: map[string]*Contract{}, boxedCache: map[*FuncInfo]map[types.Object]bool{},
+		guardedBy: map[string][]string{},
 	}
 	for _, pk := range pkgs {
 		if len(pk.Errors) > 0 {
@@ -414,4 +425,28 @@ func (p *Prog) prefixOfType(t types.Type) string {
 		return "mocks."
 	}
 	return ""
+}
+
+// fieldType finds the type of a field of a named struct type of the repository.
+func (p *Prog) fieldType(owner, field string) types.Type {
+	name := owner
+	pk := p.pkgs[0]
+	if strings.HasPrefix(owner, "mocks.") {
+		name = strings.TrimPrefix(owner, "mocks.")
+		pk = p.pkgs[len(p.pkgs)-1]
+	}
+	tn, ok := pk.Types.Scope().Lookup(name).(*types.TypeName)
+	if !ok {
+		return nil
+	}
+	st, ok := tn.Type().Underlying().(*types.Struct)
+	if !ok {
+		return nil
+	}
+	for i := 0; i < st.NumFields(); i++ {
+		if st.Field(i).Name() == field {
+			return st.Field(i).Type()
+		}
+	}
+	return nil
 }
